@@ -5,6 +5,7 @@ package main
 import (
 	"fmt"
 	"io"
+	"math/rand"
 	"os"
 	"sort"
 	"strings"
@@ -98,6 +99,7 @@ type Config struct {
 	WitnessEvery int // sample a witness model every n-th completed path (0 = never)
 	Params       map[string]int64
 	Solver       SolverKind
+	Raw          bool
 }
 
 type Explorer struct {
@@ -319,13 +321,13 @@ type Machine struct {
 	initRunning map[*ssa.Package]bool
 
 	// scheduler
-	gs      []*G
-	cur     *G
-	yieldCh chan *G
-	nextGID int
-	nextCh  int
-	clock   int64
-	timers  []*timerV
+	gs       []*G
+	cur      *G
+	yieldCh  chan *G
+	nextGID  int
+	nextCh   int
+	clock    int64
+	timers   []*timerV
 	aborting bool
 
 	// inputs
@@ -363,6 +365,7 @@ type Machine struct {
 	lazyAddr      map[*Value]*ssa.Global
 	namedErrs     map[string]Value
 	initDepth     int
+	seq           int
 }
 
 type sliceRef struct {
@@ -396,6 +399,8 @@ func runPath(eng *Engine, cfg Config, fn *ssa.Function, prefix []Decision, solve
 		harnessName: cfg.Harness,
 	}
 	m.pool = newPoolModel()
+	m.seq = seq
+	m.tf.Raw = cfg.Raw || cfg.Params["raw"] == 1
 	if m.maxSteps == 0 {
 		m.maxSteps = 20_000_000
 	}
@@ -733,9 +738,46 @@ func (m *Machine) pathModel() (map[string]uint64, map[string]string, bool) {
 }
 
 func (m *Machine) makeWitness() {
-	model, smodel, ok := m.pathModel()
-	if !ok {
+	m.flushPC()
+	// randomise the witness: greedily pin groups of inputs to random values while the path stays satisfiable
+	rng := rand.New(rand.NewSource(m.cfg.Seed*1000003 + int64(m.seq)))
+	s := m.solver
+	s.send("(push 1)")
+	ins := m.inputs
+	for i := 0; i < len(ins) && i < 600; {
+		group := 6
+		if i < 24 {
+			group = 1
+		}
+		j := i + group
+		if j > len(ins) {
+			j = len(ins)
+		}
+		var conj *Term = m.tf.True
+		for _, v := range ins[i:j] {
+			var r uint64
+			switch rng.Intn(4) {
+			case 0:
+				r = uint64(rng.Intn(4))
+			case 1:
+				r = ^uint64(0) - uint64(rng.Intn(3))
+			default:
+				r = rng.Uint64()
+			}
+			conj = m.tf.And(conj, m.tf.Eq(v, m.tf.Const(v.W, r)))
+		}
+		if s.CheckWith(conj) == VSat {
+			s.Assert(conj)
+		}
+		i = j
+	}
+	v, model, smodel := s.ModelWith(nil, m.allInputs())
+	s.send("(pop 1)")
+	if v != VSat {
 		return
+	}
+	if model == nil {
+		model = map[string]uint64{}
 	}
 	w := &Witness{Model: model, StrModel: smodel, Choices: append([]int{}, m.choices...), Symbolic: len(m.inputs)+len(m.strInputs) > 0}
 	env := model
